@@ -251,6 +251,8 @@ def reference_machine(job, pool_by_idx, results):
             st[o] = {"ref": ref, "n": 0, "unfinished": True, "manual": False, "live": True}
             if r.get("T") != 0.0:
                 bad.append((i, "setup-clock", "clock after setup is %r" % r.get("T"), r.get("T"), 0.0))
+            for key, what, impl, exp in lc.init_failures(r):
+                bad.append((i, key, what, impl, exp))
             if r.get("script_changed"):
                 ch = r["script_changed"][0]
                 bad.append((i, "setup-modifies-script", "setup() changed the caller's script (%s: %r -> %r): every later user of that script object is affected"
@@ -635,6 +637,10 @@ def replay(ctx, rec):
               "stderr": r.get("stderr", "")[-500:], "recorded_failure": rec.get("what")}
     if r["status"] != "ok":
         return False, detail
+    inits = [f for x in r["results"] for f in lc.init_failures(x)]
+    if inits or str(rec.get("key", "")).split(":")[0] in ("buffer-length", "native-init-rc", "init-arguments"):
+        detail["marshalling"] = [{"key": f[0], "what": f[1]} for f in inits[:3]]
+        return (not inits), detail
     changed = [x["script_changed"] for x in r["results"] if x.get("script_changed")]
     if changed or rec.get("key") == "setup-modifies-script":
         detail["script_changed"] = changed[:2]
